@@ -21,7 +21,7 @@ SchedSegs  == {1, 2, 3, 4, 10, 11, 13, 15, 100}
 \* initial states stays small
 MaxTags == 5
 GInit == /\ flags \in AllFlags /\ tags = <<>> /\ target \in 0..MaxTags
-         /\ mpc = "input" /\ written = 0 /\ file = <<>> /\ avail = 0
+         /\ mpc = "input" /\ written = 0 /\ file = <<>> /\ avail = 0 /\ arena = <<>> /\ eofWith = FALSE
          /\ dpc = "hdr" /\ pos = 0 /\ pending = [t |-> 0, n |-> 0, ts |-> <<0, 0>>]
          /\ hdrOut = [sig |-> FALSE, version |-> 0, video |-> FALSE, audio |-> FALSE]
          /\ got = <<>>
@@ -30,10 +30,11 @@ GInit == /\ flags \in AllFlags /\ tags = <<>> /\ target \in 0..MaxTags
 AddTag == /\ mpc = "input" /\ Len(tags) < target
           /\ \E t \in SchedTypes, ts \in SchedTs, n \in SchedSizes :
                tags' = Append(tags, [t |-> t, ts |-> ts, n |-> n, id |-> Len(tags) + 1])
-          /\ UNCHANGED <<flags, mpc, written, file, avail, dpc, pos, pending, hdrOut, got, hist>>
+          /\ UNCHANGED <<flags, arena, mpc, written, file, avail, eofWith, dpc, pos, pending, hdrOut, got, hist>>
+\* the application has built its tags: their bodies lie adjacent in its memory
 Start  == /\ mpc = "input" /\ Len(tags) = target
-          /\ mpc' = "hdr"
-          /\ UNCHANGED <<flags, tags, written, file, avail, dpc, pos, pending, hdrOut, got, hist>>
+          /\ mpc' = "hdr" /\ arena' = ArenaOf(tags)
+          /\ UNCHANGED <<flags, tags, written, file, avail, eofWith, dpc, pos, pending, hdrOut, got, hist>>
 
 Rec(r) == hist' = Append(hist, r) /\ UNCHANGED target
 
@@ -44,6 +45,7 @@ GNext ==
   \/ CloseMux    /\ Rec([op |-> "CloseMux", flen |-> Len(file')])
   \/ \E n \in Segs : Deliver(n) /\ Rec([op |-> "Deliver", n |-> n])
   \/ DeliverRest /\ Rec([op |-> "Deliver", n |-> avail' - avail])
+  \/ DeliverFinal /\ Rec([op |-> "Deliver", n |-> avail' - avail, eof |-> TRUE])   \* end-of-stream with the last bytes
   \/ ReadHeader    /\ Rec([op |-> "ReadHeader", version |-> hdrOut'.version, video |-> hdrOut'.video,
                            audio |-> hdrOut'.audio, pos |-> pos'])
   \/ ReadTagHeader /\ Rec([op |-> "ReadTagHeader", t |-> pending'.t, n |-> pending'.n, ts |-> pending'.ts, pos |-> pos'])
@@ -60,4 +62,5 @@ InputPhase == mpc = "input"
 PrefixG   == InputPhase \/ Prefix
 LayoutG   == InputPhase \/ Layout
 FramingG  == InputPhase \/ Framing
+InputsG   == InputPhase \/ InputsUntouched
 =============================================================================
